@@ -127,7 +127,7 @@ class RandomGen:
             b.nodes[s - 1]['a'] = b.chain(cases)
             return s
         if c == 'consume':
-            return b.new('consume', k=r.randint(0, 3), **b.iterdesc(r))
+            return b.new('consume', k=r.randint(0, 6), **b.iterdesc(r))
         if c == 'destr':
             return b.new('destr', k=r.randint(0, 3), **b.iterdesc(r))
         if c == 'ystar':
@@ -493,7 +493,8 @@ def print_stmts(nodes, i, ind=1, opts=None, single=False):
             out += print_stmts(nodes, nodes[n['a'] - 1]['a'], ind + 1, _scope_enter(opts, out, p))
             out.append(p + '}')
         elif t == 'consume':
-            c = ['Array.from(%s);', '[...%s];', 'new Set(%s);', 'Math.max(...%s);'][n['k'] % 4]
+            c = ['Array.from(%s);', '[...%s];', 'new Set(%s);', 'Math.max(...%s);', 'new Map(%s);', 'Object.fromEntries(%s);',
+                 'Array.from(%s, function (x) { if (x === 2) throw 5; return x; });'][n['k'] % 7]
             out.append(p + c % mkcall(n))
         elif t == 'destr':
             tg = ','.join('d%d_%d' % (i, j) for j in range(n['k']))
